@@ -122,7 +122,11 @@ where
                 };
                 (lower, upper)
             }
-            _ => (0, Some(0)),
+            None => {
+                // upstream is exhausted, but the futures still in flight will each yield an item
+                let queue_len = self.in_progress_queue.len();
+                (queue_len, Some(queue_len))
+            }
         }
     }
 }
@@ -190,7 +194,11 @@ where
                 };
                 (lower, upper)
             }
-            _ => (0, Some(0)),
+            None => {
+                // upstream is exhausted, but the futures still in flight will each yield an item
+                let queue_len = self.in_progress_queue.len();
+                (queue_len, Some(queue_len))
+            }
         }
     }
 }
